@@ -19,7 +19,9 @@ Status
       (Counterexamples/C29.lean: threshold 3/2 with a linear detector -- finding F21, reproduced on the
       real code; threshold = 1 with a saturating detector -- exact arithmetic only).
       The full statement stays visible as `C29_adaptive_full`.
-  * tune_centroid               : FULL in exact arithmetic (`C29_tune_*`), for every accepted parameter
+  * tune_centroid               : FULL in exact arithmetic (`C29_tune_*`; the final park is clamped into the
+      limits by the code -- repair of the one-ulp park defect -- and for non-negative signals the clamp is
+      proved to be a no-op, `C29_tune_park_is_centroid`), for every accepted parameter
       set with `num ≠ 1` (Python raises ZeroDivisionError for `num = 1` before any motion).
   Exact rationals stand in for IEEE doubles (see the correspondence run in harness/props/C29.py).
 -/
@@ -168,15 +170,40 @@ theorem C29_tune_visits_in_range (P : Tune.Params) (I : Tune.Resp) (p : Rat)
   rw [TuneLemmas.low_eq] at h1; rw [TuneLemmas.high_eq] at h2
   exact ⟨h1, h2⟩
 
-/-- For non-negative signals the final park position (the centroid of the last completed pass) lies
-    within [min(start,stop), max(start,stop)]. -/
-theorem C29_tune_park_in_range (P : Tune.Params) (I : Tune.Resp) (hI : ∀ k p, 0 ≤ I k p) (p : Rat)
+/-- The final park position lies within [min(start,stop), max(start,stop)] -- for EVERY signal: the code
+    clamps the last centroid into the original limits before the final move. -/
+theorem C29_tune_park_in_range (P : Tune.Params) (I : Tune.Resp) (p : Rat)
     (h : Tune.Parks P I p) : min P.start P.stop ≤ p ∧ p ≤ max P.start P.stop := by
   obtain ⟨_, _, n, hn⟩ := h
+  obtain ⟨m, s, _, hp⟩ := TuneLemmas.exited_from_run hn
+  unfold Tune.park at hp
+  cases hpk : s.peak with
+  | none => rw [hpk] at hp; simp at hp
+  | some pk =>
+    rw [hpk] at hp
+    simp only [Option.map_some, Option.some.injEq] at hp
+    have := TuneLemmas.parkPos_mem P pk
+    rw [hp, TuneLemmas.low_eq, TuneLemmas.high_eq] at this
+    exact this
+
+/-- For non-negative signals that clamp is a no-op (exact arithmetic): the park position IS the centroid
+    `sum_xI / sum_I` of the last completed pass, which already lies within the limits because every scanned
+    position does and the weights are non-negative. -/
+theorem C29_tune_park_is_centroid (P : Tune.Params) (I : Tune.Resp) (hI : ∀ k p, 0 ≤ I k p) (p : Rat)
+    (h : Tune.Parks P I p) :
+    ∃ m s, Tune.iterN P I m (Tune.start0 P) = .run s ∧ s.peak = some p := by
+  obtain ⟨_, _, n, hn⟩ := h
   obtain ⟨m, s, hs, hp⟩ := TuneLemmas.exited_from_run hn
-  have := (TuneLemmas.nn_reach hI m s hs).2.2.2 p hp
-  rw [TuneLemmas.low_eq, TuneLemmas.high_eq] at this
-  exact this
+  refine ⟨m, s, hs, ?_⟩
+  unfold Tune.park at hp
+  cases hpk : s.peak with
+  | none => rw [hpk] at hp; simp at hp
+  | some pk =>
+    rw [hpk] at hp
+    simp only [Option.map_some, Option.some.injEq] at hp
+    obtain ⟨h1, h2⟩ := (TuneLemmas.nn_reach hI m s hs).2.2.2 pk hpk
+    rw [TuneLemmas.parkPos_id h1 h2] at hp
+    rw [hp]
 
 /-- Termination with an explicit bound, for EVERY signal: each pass takes at most `L + 1 = |num-1| + 1`
     points and divides the scan range by at least `step_factor`; once
@@ -207,7 +234,7 @@ theorem C29_tune_terminates_exists (P : Tune.Params) (I : Tune.Resp)
 theorem C29_tune_full_holds : C29_tune_full := by
   intro P I hrej hz
   exact ⟨C29_tune_terminates_exists P I hrej hz,
-    fun hI => ⟨fun p h => C29_tune_visits_in_range P I p h, fun p h => C29_tune_park_in_range P I hI p h⟩⟩
+    fun _ => ⟨fun p h => C29_tune_visits_in_range P I p h, fun p h => C29_tune_park_in_range P I p h⟩⟩
 
 /-! ## non-vacuity: the hypotheses are satisfiable on concrete, non-trivial inputs -/
 
